@@ -93,17 +93,18 @@ func (w *WriteShardRequest) UnmarshalBinary(buf []byte) error {
 }
 
 func (w *WriteShardRequest) unmarshalPoints() []models.Point {
-	points := make([]models.Point, len(w.pb.GetPoints()))
-	for i, p := range w.pb.GetPoints() {
+	points := make([]models.Point, 0, len(w.pb.GetPoints()))
+	for _, p := range w.pb.GetPoints() {
 		pt, err := models.NewPointFromBytes(p)
 		if err != nil {
 			// A error here means that one node created a valid point and sent us an
-			// unparseable version.  We could log and drop the point and allow
-			// anti-entropy to resolve the discrepancy, but this shouldn't ever happen.
+			// unparseable version.  Log and drop the point: a nil Point in the
+			// result is dereferenced by the shard write and crashes the node.
 			log.Printf("failed to parse point: `%v`: %v", string(p), err)
+			continue
 		}
 
-		points[i] = pt
+		points = append(points, pt)
 	}
 	return points
 }
